@@ -118,37 +118,7 @@ def check(run: Run) -> None:
         _check_shadow_lambda(run, ctx, m, vl, "C05")
 
     # ---------------- R4
-    rf = m.find_func("rewrite_func_as_lambda", in_module="func_adl.util_ast")
-    fr = ctx.analysis(rf)
-    fp = ("param", rf.pos_params[0])
-    rets = fr.returns()
-    run.check(len(rets) == 1, "C05.R4", rf, rf.node, "one return", f"{len(rets)} returns")
-    for s, n in rets:
-        t = strip_sites(fr.term_of(s.value, n))
-        d = dict(t[2]) if t[0] == "new" and t[1] == "Lambda" else {}
-        ok_args = d.get("args") == ("attr", fp, "args")
-        b = d.get("body")
-        ok_body = b is not None and b[0] == "attr" and b[2] == "value" and b[1][0] == "index" and b[1][2] == 0
-        run.check(ok_args and ok_body, "C05.R4", rf, s, "result is Lambda(f.args, <the single statement>.value)", f"rewrite_func_as_lambda returns {show(t)[:140]}", term=show(t))
-        fx = Facts(fr, s)
-        one = False
-        isret = False
-        for a, pol in fx.atoms:
-            le = len_eq(a)
-            if le is not None and ((le[1] == "NotEq" and not pol and le[2] == 1) or (le[1] == "Eq" and pol and le[2] == 1)):
-                one = True
-            if isinstance(a, ast.Call) and isinstance(a.func, ast.Name) and a.func.id == "isinstance" and pol and len(a.args) == 2 and ast.unparse(a.args[1]) == "ast.Return":
-                isret = True
-        run.check(one, "C05.R4", rf, s, "guarded by exactly one non-docstring statement", "a def with several statements is turned into a lambda of one of them")
-        run.check(isret, "C05.R4", rf, s, "guarded by 'the statement is a Return'", "a def whose single statement is not a return is turned into a lambda")
-    for n in own_nodes(rf):
-        if isinstance(n, ast.Raise):
-            exc = n.exc.func if isinstance(n.exc, ast.Call) else n.exc
-            run.check(isinstance(exc, ast.Name) and exc.id == "ValueError", "C05.R4", rf, n, "refusal is a ValueError", f"refusal raises {ast.unparse(exc)}")
-    # docstring filter: only constant expression statements are dropped
-    comps = [n for n in own_nodes(rf) if isinstance(n, ast.ListComp)]
-    ok_f = len(comps) == 1 and len(comps[0].generators) == 1 and len(comps[0].generators[0].ifs) == 1 and "ast.Expr" in ast.unparse(comps[0].generators[0].ifs[0]) and "ast.Constant" in ast.unparse(comps[0].generators[0].ifs[0]) and strip_sites(fr.term_of(comps[0].generators[0].iter, fr.cfg.node_of(comps[0]))) == ("attr", fp, "body")
-    run.check(ok_f, "C05.R4", rf, comps[0] if comps else rf.node, "only docstring-like constant expression statements are ignored", "the statements considered are not 'f.body minus constant expression statements'")
+    check_rewrite_func(run, ctx, m, "C05.R4")
 
     # ---------------- R5
     rcv = m.find_class("_rewrite_captured_vars", in_module="func_adl.util_ast")
@@ -253,3 +223,40 @@ def _guard(run: Run, fa, vc: FuncInfo, ret_stmt, nodep) -> None:
     }
     for key, msg in need.items():
         run.check(_has_evidence(atoms, key), "C05.R3", vc, ret_stmt, f"inlined only if {msg}", f"a helper call is inlined without checking that {msg}: a parameter is left unbound or bound to the wrong argument", "return the call intact otherwise")
+
+
+def check_rewrite_func(run: Run, ctx, m, rule: str) -> None:
+    """rewrite_func_as_lambda: a one-line def becomes Lambda(<the def's own arguments object>, <its return expression>)
+    (also C03.R5: the def form must recover the function that was passed, parameters and defaults included)."""
+    rf = m.find_func("rewrite_func_as_lambda", in_module="func_adl.util_ast")
+    fr = ctx.analysis(rf)
+    fp = ("param", rf.pos_params[0])
+    rets = fr.returns()
+    run.check(len(rets) == 1, rule, rf, rf.node, "one return", f"{len(rets)} returns")
+    for s, n in rets:
+        t = strip_sites(fr.term_of(s.value, n))
+        d = dict(t[2]) if t[0] == "new" and t[1] == "Lambda" else {}
+        ok_args = d.get("args") == ("attr", fp, "args")
+        b = d.get("body")
+        ok_body = b is not None and b[0] == "attr" and b[2] == "value" and b[1][0] == "index" and b[1][2] == 0
+        run.check(ok_args and ok_body, rule, rf, s, "result is Lambda(f.args, <the single statement>.value)", f"rewrite_func_as_lambda returns {show(t)[:140]}", term=show(t))
+        fx = Facts(fr, s)
+        one = False
+        isret = False
+        for a, pol in fx.atoms:
+            le = len_eq(a)
+            if le is not None and ((le[1] == "NotEq" and not pol and le[2] == 1) or (le[1] == "Eq" and pol and le[2] == 1)):
+                one = True
+            if isinstance(a, ast.Call) and isinstance(a.func, ast.Name) and a.func.id == "isinstance" and pol and len(a.args) == 2 and ast.unparse(a.args[1]) == "ast.Return":
+                isret = True
+        run.check(one, rule, rf, s, "guarded by exactly one non-docstring statement", "a def with several statements is turned into a lambda of one of them")
+        run.check(isret, rule, rf, s, "guarded by 'the statement is a Return'", "a def whose single statement is not a return is turned into a lambda")
+    for n in own_nodes(rf):
+        if isinstance(n, ast.Raise):
+            exc = n.exc.func if isinstance(n.exc, ast.Call) else n.exc
+            run.check(isinstance(exc, ast.Name) and exc.id == "ValueError", rule, rf, n, "refusal is a ValueError", f"refusal raises {ast.unparse(exc)}")
+    # docstring filter: only constant expression statements are dropped
+    comps = [n for n in own_nodes(rf) if isinstance(n, ast.ListComp)]
+    ok_f = len(comps) == 1 and len(comps[0].generators) == 1 and len(comps[0].generators[0].ifs) == 1 and "ast.Expr" in ast.unparse(comps[0].generators[0].ifs[0]) and "ast.Constant" in ast.unparse(comps[0].generators[0].ifs[0]) and strip_sites(fr.term_of(comps[0].generators[0].iter, fr.cfg.node_of(comps[0]))) == ("attr", fp, "body")
+    run.check(ok_f, rule, rf, comps[0] if comps else rf.node, "only docstring-like constant expression statements are ignored", "the statements considered are not 'f.body minus constant expression statements'")
+
